@@ -35,7 +35,7 @@ import enspara.util.load as ens_load
 PROPERTY = "C15"
 LEVEL = "exploration"
 RULE = ("HDF5 clauses: Hypothesis draws a RaggedArray (1..12 rows, sometimes 98..102, thorough also 13..250; row "
-        "lengths equal / ragged / one-off; element shape scalar,(1,),(3,),(2,3); dtype int8..int64,uint8,float32/64 "
+        "lengths equal / ragged / one-off; element shape scalar,(1,),(3,),(2,3); dtype int8..int64,uint8..uint64,float16/32/64 "
         "(with nan/inf/-0.0/tiny/max sprinkled in),bool; built from a list of rows, from flat data + list lengths or "
         "flat data + ndarray lengths) or a plain ndarray (1-D..4-D, C/F/strided layout), compression 0..9, tag, "
         "stride 1..7 and an ordered/permuted key subset. Oracle: the list of numpy rows the case was built from "
@@ -64,8 +64,8 @@ ASSUMPTIONS = [
 ]
 SHARDS = {"quick": 4, "thorough": 16}
 
-INT_DTYPES = ["int8", "int16", "int32", "int64", "uint8"]
-FLT_DTYPES = ["float32", "float64"]
+INT_DTYPES = ["int8", "int16", "int32", "int64", "uint8", "uint16", "uint32", "uint64"]
+FLT_DTYPES = ["float32", "float64", "float16"]
 DTYPES = INT_DTYPES + FLT_DTYPES + ["bool"]
 ELEMS = [[], [], [], [3], [3], [2, 3], [1]]
 TAGS = ["arr", "arr", "arr", "x", "traj_7"]
